@@ -1,8 +1,8 @@
 """Mutants for the mutation audit: realistic single-site changes of tradingenv,
 each listed with the properties whose checks must catch it."""
 
-def M(id, props, *edits, note=""):
-    return dict(id=id, props=props, edits=[tuple(e) for e in edits], note=note)
+def M(id, props, *edits, note="", benign=False):
+    return dict(id=id, props=props, edits=[tuple(e) for e in edits], note=note, benign=benign)
 
 BROKER = "tradingenv/broker/broker.py"
 ENV = "tradingenv/env.py"
@@ -85,4 +85,43 @@ MUTANTS = [
       (BROKER, "cagr = order_book.mid_price - self.fees.markup * np.sign(amount)", "cagr = order_book.mid_price - self.fees.markup * max(np.sign(amount), 0)")),
     M("earlier-time-accepted", ["C06"],
       (BROKER, "        if now < self._last_accrual:\n            raise ValueError(\"now={} < last_update={}\".format(now, self._last_accrual))\n", "        if now < self._last_accrual:\n            now = self._last_accrual\n")),
+    # ------------------------------------------------------------------ C12
+    M("revert-F8-sublot", ["C12"],
+      (REBAL, "                if quantity == 0:\n                    # Imbalance is smaller than one lot. Nothing to trade.\n                    continue\n", "")),
+    M("threshold-le", ["C12"],
+      (REBAL, "if abs(weights[contract]) < self.margin and contract in self.allocation:", "if abs(weights[contract]) <= self.margin and contract in self.allocation:")),
+    M("round-for-int", ["C12"],
+      (REBAL, "                quantity = int(quantity)\n", "                quantity = int(round(quantity))\n")),
+    M("threshold-on-liquidations", ["C12", "C11"],
+      (REBAL, "if abs(weights[contract]) < self.margin and contract in self.allocation:", "if abs(weights[contract]) < self.margin:")),
+    M("cash-traded", ["C12", "C17"],
+      (ALLOC, "            if not isinstance(contract, Cash)\n", "")),
+    M("floor-for-int", ["C12"],
+      (REBAL, "                quantity = int(quantity)\n", "                import math; quantity = math.floor(quantity)\n")),
+    # ------------------------------------------------------------------ C13
+    M("nan-valued-as-zero", ["C13"],
+      (BROKER, "                if np.isnan(liq_price):\n                    raise ValueError(\n                        \"Missing liquidation transaction_price for {}.\".format(contract)\n                    )\n",
+       "                if np.isnan(liq_price):\n                    liq_price = 0.0\n")),
+    M("trade-nan-check-dropped", ["C13"],
+      (TRADE, "        if np.isnan(bid_price):\n            raise ValueError(\"Missing bid price for contract {}.\".format(contract))\n        if np.isnan(ask_price):\n            raise ValueError(\"Missing ask price for contract {}.\".format(contract))\n", "")),
+    M("transact-while-building", ["C13"],
+      (BROKER, "        rebalancing.trades = rebalancing.make_trades(self)\n        for trade in rebalancing.trades:\n            self.transact(trade)\n",
+       "        rebalancing.trades = []\n        _mk = rebalancing.make_trades(self)\n        for trade in _mk:\n            self.transact(trade)\n            rebalancing.trades.append(trade)\n"),
+      note="(control: same behaviour, must NOT be caught) - see lazy variant below", benign=True),
+    M("lazy-trades", ["C13"],
+      (REBAL, "            trades.append(trade)\n        return trades", "            broker.transact(trade) if False else trades.append(trade)\n            if len(trades) == 1 and len(imbalance) > 1:\n                broker.transact(trades.pop())\n                trades_done = getattr(self, '_done_trades', [])\n        return trades"),
+      note="first trade is executed while the list is still being built"),
+    M("dead-book-revived", ["C13", "C14"],
+      (EXCH, "        if book.is_alive:\n            book.update(event)", "        book.update(event)")),
+    # ------------------------------------------------------------------ C14
+    M("terminate-not-blanking", ["C14"],
+      (EXCH, "        history = self.history\n        self.__init__()\n        self.history = history\n", "")),
+    M("history-not-appended", ["C14"],
+      (EXCH, '        self.history["ask_price"].append(self.ask_price)\n', "")),
+    M("history-for-rejected", ["C14"],
+      (EXCH, "        if book.is_alive:\n            book.update(event)", "        if book.is_alive:\n            book.update(event)\n        else:\n            book.history['time'].append(event.time); book.history['bid_price'].append(event.bid_price); book.history['ask_price'].append(event.ask_price); book.history['mid_price'].append(event.mid_price)")),
+    M("static-chain-key", ["C14", "C11"],
+      (EXCH, "            key = key.static_hashing()  # TODO: Test", "            key = getattr(key, 'contracts', [key])[0] if not hasattr(self, '_x') else key")),
+    M("mid-for-flat-wrong", ["C14"],
+      (EXCH, "        elif quantity == 0:\n            return self.mid_price", "        elif quantity == 0:\n            return self.ask_price")),
 ]
